@@ -35,15 +35,15 @@ def run(ctx):
     )
     run.trusted_base = ["CPython ast", "sa/callgraph.py, sa/forward.py"]
     run.assumptions = ["new_version() creates a new object and leaves its argument untouched (C05/C13 decide its shape)"]
-    rule_dispatch(ctx)
-    rule_forward(ctx)
-    rule_query_siblings(ctx)
-    rule_path_tree(ctx)
-    rule_whole_selectors(ctx)
-    rule_new_version(ctx)
-    rule_every_function(ctx, rule_id="C07.validate-first")
-    rule_set_is_clear_then_add(ctx)
-    rule_normal_form(ctx)
+    ctx.do(rule_dispatch)
+    ctx.do(rule_forward)
+    ctx.do(rule_query_siblings)
+    ctx.do(rule_path_tree)
+    ctx.do(rule_whole_selectors)
+    ctx.do(rule_new_version)
+    ctx.do(rule_every_function, rule_id="C07.validate-first")
+    ctx.do(rule_set_is_clear_then_add)
+    ctx.do(rule_normal_form)
 
 
 def rule_dispatch(ctx):
